@@ -214,7 +214,16 @@ func (w *regWorld) discover(p int) {
 	w.late[p] = false
 }
 
-func regDev(p int) string { return fmt.Sprintf("dev%d", p) }
+// regSameDev (round 7, header token "same"): every peer announces the SAME device address "dev1" - legal: device
+// addresses are chosen by the devices, connections are told apart by SKI. Set per history by runRegHistoryTd.
+var regSameDev bool
+
+func regDev(p int) string {
+	if regSameDev {
+		return "dev1"
+	}
+	return fmt.Sprintf("dev%d", p)
+}
 func regSki(p int) string { return fmt.Sprintf("ski%d", p) }
 
 func regParseEnt(s string) []uint {
@@ -617,6 +626,13 @@ func runRegHistoryTd(r *h.Report, d *h.Driver, ev *regEvents, base int, ops []st
 		return false
 	}
 	np, late, broken := regHeader(ops[0])
+	regSameDev = false
+	for _, t := range strings.Fields(ops[0])[1:] {
+		if t == "same" {
+			regSameDev = true
+		}
+	}
+	defer func() { regSameDev = false }()
 	w := newRegWorldTd(np, ev, base, td, late, broken)
 	defer w.close()
 	if w.td != nil {
@@ -1757,6 +1773,9 @@ func TestRegistry(t *testing.T) {
 	run([]string{"peers 3", "sub 1 1 1 1 1 1", "sub 2 1 1 1 1 1", "sub 3 1.1 1 1 1 1", "sub 1 1 2 1 2 2", "sub 2 2 1 2 2 4", "bind 2 1 1 1 1 1", "notify 1 1", "notifybad 1 1", "update 1 1", "updatebad 1 1",
 		"write 2 1 1 1 1", "write 1 1 1 1 1", "notify 1 1", "notify 1 2", "update 1 2", "notify 2 2", "update 2 2", "notifybad 2 2", "notify 1 3", "update 1 3", "notify 0 1", "update 0 1", "notify 0 0", "write 2 1 1 1 2",
 		"unsub 2 0 1 1 1 1", "write 2 1 1 1 1", "notify 1 1"})
+	// round 7: peers that announce one and the same device address (connections differ by SKI only). No list reads here: a list over the wire names clients by address and cannot tell such peers apart, so the harness could not attribute its entries
+	run([]string{"peers 2 same", "sub 1 1 1 1 1 1", "sub 2 1 1 1 1 1", "notify 1 1", "update 1 1", "notify 1 1", "update 1 1", "notify 1 1", "update 1 1", "notify 1 1", "update 1 1", "unsub 1 0 1 1 1 1", "notify 1 1"})
+	run([]string{"peers 3 same", "bind 3 1 1 1 1 1", "sub 1 1 1 1 1 1", "sub 2 1 1 1 1 1", "sub 3 1 1 1 1 1", "sub 1 0 0 0 0 100", "sub 2 0 0 0 0 100", "notify 1 1", "update 1 1", "write 3 1 1 1 1", "notify 0 0", "notify 1 1", "update 1 1", "write 3 1 1 1 1", "notify 1 1", "update 1 1"})
 	rng := h.Rng(8)
 	rngBad := h.Rng(81)
 	hist := h.Scale(250, 2500)
